@@ -56,7 +56,9 @@ def perturb_leg(rng, cfg, sym, leg):
     if r > 0.3:
         t = rcharge(rng, sym, wide=True)
         if t not in tD:
-            tD[t] = orig.get(t, rng.randint(1, 3))
+            rnd = rng.randint(1, 3)       # (drawn always, to keep the stream independent of the branch)
+            tD[t] = orig.get(t, 1 + sum(abs(x) for x in t) % 3)    # new sectors get a dimension that depends on the charge only:
+            # independent perturbations of one leg then agree on every common sector
     ts = sorted(tD)
     return yastn.Leg(cfg, s=leg.s, t=ts, D=[tD[t] for t in ts])
 
@@ -254,8 +256,16 @@ def sc_add(rng, opts):
         a2 = a2.consume_transpose()
     if kb:
         b2 = b2.consume_transpose()
-    op = rng.choice(['add', 'sub', 'lin', 'iadd_like'])
+    op = rng.choice(['add', 'sub', 'lin', 'iadd_like', 'add3', 'add3'])
     x, y = rng.randint(-2, 3), rng.randint(-2, 3)
+    # third operand for yastn.add(a, b, c): same visible legs, its own way of holding the permutation
+    lc3 = [l if rng.random() < 0.6 else perturb_leg(rng, cfg, sym, l) for l in la]
+    c3 = rtensor(rng, cfg, lc3, n=a.n, cplx=False, drop=rng.choice([0, 0.3]))
+    c3 = c3.transpose(perm) if perm != tuple(range(r)) else c3
+    if rng.random() < 0.5:
+        c3 = c3.consume_transpose()
+    z = rng.randint(-2, 3)
+    rng_flag = rng.random() < 0.5
 
     def fn():
         if op == 'add':
@@ -264,14 +274,20 @@ def sc_add(rng, opts):
             return a2 - b2
         if op == 'lin':
             return yastn.add(a2, b2, amplitudes=[x, y])
+        if op == 'add3':
+            return yastn.add(a2, b2, c3, amplitudes=[x, y, z]) if rng_flag else yastn.add(a2, b2, c3)
         return a2.__add__(b2) * 2 - b2
 
     def oracle(c):
+        if op == 'add3':
+            lg = {i: yastn.legs_union(a2.get_legs(i), b2.get_legs(i), c3.get_legs(i)) for i in range(r)}
+            da, db, dc = dense(a2, lg), dense(b2, lg), dense(c3, lg)
+            return dict(dense=(x * da + y * db + z * dc) if rng_flag else (da + db + dc), legs=lg, n=a.n)
         lg = {i: yastn.legs_union(a2.get_legs(i), b2.get_legs(i)) for i in range(r)}
         da, db = dense(a2, lg), dense(b2, lg)
         ref = {'add': da + db, 'sub': da - db, 'lin': x * da + y * db, 'iadd_like': (da + db) * 2 - db}[op]
         return dict(dense=ref, legs=lg, n=a.n)
-    return dict(fn=fn, oracle=oracle, operands=[a2, b2], describe=dict(sym=sym, op=op, perm=perm, rank=r))
+    return dict(fn=fn, oracle=oracle, operands=[a2, b2, c3], describe=dict(sym=sym, op=op, perm=perm, rank=r, trans=(a2.trans, b2.trans, c3.trans)))
 
 
 def sc_unary(rng, opts):
@@ -569,7 +585,7 @@ def sc_fuse(rng, opts):
     mode = opts.get('mode') or mode_r
     depth2 = rng.random() < 0.4 and len(groups) >= 2
     mode2 = rng.choice(['hard', 'meta'])
-    op = rng.choice(['roundtrip', 'norm', 'dense', 'dot', 'add', 'vdot', 'roundtrip_transposed', 'roundtrip_transposed', 'add_transposed', 'add_transposed'])
+    op = rng.choice(['roundtrip', 'norm', 'dense', 'dot', 'add', 'vdot', 'roundtrip_transposed', 'roundtrip_transposed', 'add_transposed', 'add_transposed', 'add3'])
     flat = [x for g in groups for x in (g if isinstance(g, tuple) else (g,))]
     qperm = list(range(len(groups))); rng.shuffle(qperm)
     consume_first = rng.random() < 0.3
@@ -594,6 +610,11 @@ def sc_fuse(rng, opts):
         fa = fuse(a)
         if op == 'roundtrip':
             return unfuse(fa)
+        if op == 'add3':
+            # three fused operands: the first and the last share their fusion history, the middle one has different sector content
+            a3 = rtensor(random.Random(r * 7919 + len(groups)), cfg, list(a.get_legs()), n=a.n, cplx=False)
+            fn.a3 = a3
+            return unfuse(yastn.add(fa, fuse(c2), fuse(a3)))
         if op == 'add_transposed':
             # both (hard- or meta-) fused operands carry the SAME pending transposition; their fused legs differ in sector content
             f1 = a.fuse_legs(axes=tuple(groups), mode=mode).transpose(tuple(qperm))
@@ -628,6 +649,9 @@ def sc_fuse(rng, opts):
         if op == 'roundtrip_transposed':
             fl2 = [x for gi in qperm for x in (groups[gi] if isinstance(groups[gi], tuple) else (groups[gi],))]
             return dict(dense=dense(a).transpose(fl2), legs={k: lg[i] for k, i in enumerate(fl2)}, n=a.n)
+        if op == 'add3':
+            un3 = {i: yastn.legs_union(lg[i], c2.get_legs(i)) for i in range(r)}
+            return dict(dense=(dense(a, un3) + dense(c2, un3) + dense(fn.a3, un3)).transpose(flat), legs={k: un3[i] for k, i in enumerate(flat)}, n=a.n)
         if op == 'add_transposed':
             fl2 = [x for gi in qperm for x in (groups[gi] if isinstance(groups[gi], tuple) else (groups[gi],))]
             un2 = {i: yastn.legs_union(lg[i], c2.get_legs(i)) for i in range(r)}
